@@ -933,16 +933,47 @@ def handler_style(rng):
     return st
 
 
+def handler_corpus():
+    """requests that once exposed a defect of the chat handler; they run first, with fixed context lengths.
+    Image-only turns (empty / blank content + picture): a handler that drops 'blank' request messages loses the turn and
+    its image, or answers without building a prompt at all."""
+    def M(i, role, body, images=(), raw=None):
+        m = {"id": i, "role": role, "body": body, "images": list(images)}
+        if raw is not None:
+            m["raw"] = raw
+        return m
+    fx = fixed_styles()
+    sysm = {"id": 900, "role": "system", "body": "be brief", "images": []}
+    out = []
+    for st in (fx[0], fx[1], fx[2]):
+        for system in (None, sysm):
+            for blank in ("", " "):
+                out.append({"style": st, "system": system, "model_msgs": [], "fixed_ctx": [2048, 1],
+                            "msgs": [M(0, "user", "what is this"), M(1, "user", "", [0], raw=blank)]})
+                out.append({"style": st, "system": None, "model_msgs": [], "fixed_ctx": [2048],
+                            "msgs": [M(0, "system", "rules"), M(1, "user", "", [0], raw=blank)]})
+                out.append({"style": st, "system": system, "model_msgs": [M(0, "user", "earlier"), M(1, "assistant", "answer")], "fixed_ctx": [2048],
+                            "msgs": [M(2, "user", "", [0], raw=blank), M(3, "user", "and this text")]})
+                out.append({"style": st, "system": system, "model_msgs": [], "fixed_ctx": [2048],
+                            "msgs": [M(0, "user", "", [0, 1], raw=blank)]})
+    for c in out:
+        c["num_ctx"] = 1
+    return out
+
+
 def handler_check(ctx):
     """POST /api/chat through the real ChatHandler: what reaches the runner is the prompt of the whole conversation"""
     binp = ctx.go_build(**CHAT_BUILD)
     if not binp:
         return
     rng = ctx.rng
-    base = []
+    base = handler_corpus()
     for i in range(50 if ctx.quick() else 500):
         st = handler_style(rng)
         msgs = tool_dialogue(rng) if i % 4 == 3 else rnd_conv(rng, 6)
+        if i % 5 == 1:                          # a turn that is just a picture (empty or blank content), last or in the middle
+            k = len(msgs) - 1 if i % 2 else rng.randrange(len(msgs))
+            msgs[k] = {"id": msgs[k]["id"], "role": "user", "body": "", "raw": rng.choice(["", "", " ", "\n"]), "images": [40 + i]}
         j = rng.randrange(len(msgs))            # msgs[:j] are the model's own messages, msgs[j:] the request
         model_msgs = [dict(m, images=[], body=m["body"].replace("[img]", "")) for m in msgs[:j]]
         system = None if rng.random() < 0.35 else {"id": 900, "role": "system", "body": rnd_body(rng, long=rng.random() < 0.3), "images": []}
@@ -953,7 +984,7 @@ def handler_check(ctx):
     cases = []
     for c0, o0 in zip(base, obs0):
         pc = as_prompt_case(c0)
-        for t in thresholds(rng, pc, o0, 2):
+        for t in c0.get("fixed_ctx") or thresholds(rng, pc, o0, 2):
             cases.append(dict(c0, num_ctx=max(1, t)))
     obs = run_chat(ctx, binp, cases)
     if obs is None:
